@@ -337,6 +337,23 @@ def deep_wiring_leg(c):
                     ' and sent' if (2002).to_bytes(16, 'big') in sysm.sent else ' silently'))
             except BaseException:
                 pass
+            # a second life of the same agent (the service has a new configuration by then): work is accepted, done
+            # off the application thread and drained again
+            try:
+                sysm.start()
+            except BaseException as ex:
+                problems.append('the second start() of the agent raised %r' % (ex,))
+            if sysm.deep.started:
+                again = EventSnapshot(TracePointConfig('x', 'f.py', 1, {}, [], []), 1, Resource.create(), [], {})
+                again._id = 2003
+                try:
+                    sysm.deep.push.push_snapshot(again)
+                except BaseException as ex:
+                    problems.append('second life: a delivery was refused: %r' % (ex,))
+                sysm.deep.shutdown()
+                if sysm.sent.count((2003).to_bytes(16, 'big')) != 1:
+                    problems.append('second life: the delivery handed over before shutdown() was sent %d time(s) when '
+                                    'shutdown() returned' % sysm.sent.count((2003).to_bytes(16, 'big')))
         finally:
             sysm.close()
         out['problems'] = problems
